@@ -518,6 +518,9 @@ def autoforwards_ast(func, func_ast, sig, args=(), kwargs={}):
         sigs = list(forward_signatures(
             func, CallListerVisitor(func_ast),
             args, kwargs, sig))
+    except RecursionError:
+        # eg. an expression nested deeper than the visitor can descend
+        raise UnknownForwards('Source nested too deeply')
     finally:
         in_progress.pop()
     if sigs:
